@@ -636,6 +636,13 @@ func checkZeroReadFatal(c *Ctx) {
 			if nn.Sign && strings.HasSuffix(s, "#0 == 0)") && strings.Contains(s, "Source.Read") {
 				zero = true
 			}
+			// n <= 0, n < 1 (and the false edges of n > 0, n >= 1, n != 0)
+			if strings.Contains(s, "Source.Read") && nn.Cond.Op == "binop" && len(nn.Cond.Args) == 2 && strings.HasSuffix(nn.Cond.Args[0].String(), "#0") {
+				r, op := nn.Cond.Args[1], nn.Cond.Name
+				if r.IsConst("0") && (nn.Sign && op == "<=" || !nn.Sign && (op == ">" || op == "!=")) || r.IsConst("1") && (nn.Sign && op == "<" || !nn.Sign && op == ">=") {
+					zero = true
+				}
+			}
 			if nn.Sign && strings.HasSuffix(s, "#1 == nil)") && strings.Contains(s, "Source.Read") {
 				readOK = true
 			}
